@@ -13,7 +13,7 @@ nodes of the type expression (a constant per type).
 
 Memory itself is not observable in Lean: what is proved is that the *decoded value* (everything `decode` ever
 returns) is linear in the sequence length whatever the length fields say, and that counts are bounded by the
-sequence length. That the Rust code does not pre-allocate from untrusted counts is tested by the harness
+sequence length, and that the work done on *any* outcome is linear too (`decode_work_bound`). That the Rust code does not pre-allocate from untrusted counts is tested by the harness
 (peak bytes per decode ≤ 512·(len+1)+4096), not proved.
 -/
 namespace TF.C13
@@ -49,6 +49,15 @@ theorem decode_size_bound (t : Ty) (s : List Nat) (v : Val) (h : decode t s = .o
     v.size ≤ t.size * max 1 s.length :=
   TF.Codec.decode_size t s v h
 example : decode (.vec (.vec .u8)) [2, 1, 0, 2, 1, 5] = .ok (.list [.list [], .list [.num 5]]) := rfl
+
+/-- **Work bound, any outcome** (ok, err or panic): the number of decoder calls and loop iterations `decode t s`
+    performs — `cost t s`, defined along the control flow of `decode` in `TF/Model/Codec.lean` — is at most
+    `Ty.work t · max 1 |s|`, whatever counts and length prefixes the sequence contains. -/
+theorem decode_work_bound (t : Ty) (s : List Nat) : cost t s ≤ t.work * max 1 s.length :=
+  TF.Codec.cost_le t s
+example : cost (.vec (.vec .u8)) [18446744069414584320, 2, 1, 5, 18446744069414584320] = 8 ∧
+    decode (.vec (.vec .u8)) [18446744069414584320, 2, 1, 5, 18446744069414584320] = .err .tooShort ∧
+    (Ty.vec (.vec .u8)).work = 7 := ⟨rfl, rfl, rfl⟩
 
 /-- an accepted `Vec` never has more items than the sequence has elements (no type of the grammar without
     zero-width items; with them nothing is accepted at all, see `zero_width_vec_never_accepts`) -/
